@@ -18,15 +18,15 @@ CHECKS = {
         "design_ref": "DESIGN.md §7 C01",
     },
     "C02": {
-        "scenarios": [{"name": "crash"}],
-        "accept": ["crash:", "replay:"],
-        "technique": "Lean: the daemon as a process (Proofs/Process, NonInterference): along EVERY run of completed iterations, iterations cut short before COMMIT and restarts, heights are applied once each, in order, without gaps (InOrder invariant); cut-short iterations leave no trace at any height; below PIP-10 every kill and restart can be erased without changing the ledger or the sync height (relational program logic: nothing but the final bump reads pn_sync_version); block all-or-nothing; regenerated fact that no sync-path write uses the pool. Tie: real SIGKILL of a child daemon before every kind of SQL statement / COMMIT / after COMMIT, and before COMMIT of a snapshot block on a 40 000-holder ledger (pages spilled) under the daemon's own journal configuration; reopen, integrity check, compare with the reference ledger, resume; single statements of a block transaction (first / last write, a random one, COMMIT) failing once instead of a kill, resumed ledger (one version row per height) compared",
+        "scenarios": [{"name": "crash"}, {"name": "restart"}],
+        "accept": ["crash:", "replay:", "restart:"],
+        "technique": "Lean: the daemon as a process (Proofs/Process, NonInterference): along EVERY run of completed iterations, iterations cut short before COMMIT and restarts, heights are applied once each, in order, without gaps (InOrder invariant); cut-short iterations leave no trace at any height; below PIP-10 every kill and restart can be erased without changing the ledger or the sync height (relational program logic: nothing but the final bump reads pn_sync_version); block all-or-nothing; regenerated fact that no sync-path write uses the pool. Tie: real SIGKILL of a child daemon before every kind of SQL statement / COMMIT / after COMMIT, and before COMMIT of a snapshot block on a 40 000-holder ledger (pages spilled) under the daemon's own journal configuration; reopen, integrity check, compare with the reference ledger, resume; single statements of a block transaction (first / last write, a random one, COMMIT) failing once instead of a kill, resumed ledger (one version row per height) compared; clean restarts after single heights and random sets of heights of a chain that runs past PIP-10 with moving prices and ungraded blocks (the averages cache is process state: C09's scenario), ledger compared with the continuous run",
         "assumptions": [SQLITE],
         "design_ref": "DESIGN.md §7 C02",
     },
     "C03": {
         "scenarios": [{"name": "admission"}, {"name": "bank"}, {"name": "general", "tier": "thorough"}],
-        "accept": ["batch:", "nonneg:", "history-replay:balances-differ", "transfer:"],
+        "accept": ["batch:", "nonneg:", "history-replay:balances-differ", "transfer:", "bank:refund"],
         "technique": "Lean: balance-table invariant lifted through the whole block transaction and every chain; rejected batch = no state change; precheck_sound: if the cumulative in-memory pass accepts a batch, recordBatch never meets an insufficient balance (exact point-wise effect of every write on the input address, by induction over the batch, PEG requests deferred); accepted batch passed the funds check. Tie: bank-era chains with requests that are rejected when they execute; applyTransactionBatch (hook) on random 1-4 transaction batches and on change-output batches (spends relying on an output back to the input address, at / below / above what is left) vs the model and the cumulative funds rule; transfers whose outputs wrap uint64; lock-step chains; conservation monitor on executed transfers",
         "assumptions": ["per-asset column sums stay below 2^63 (no check in the code; SQLite would switch to REAL)"],
         "design_ref": "DESIGN.md §7 C03",
